@@ -46,4 +46,14 @@ def logTypeStop : Nat := 20
 /-- a log (type, extra, newVal) as an `L`: key = type·100 + extra; only the NewVal cell is recorded -/
 def mkL (t e : Nat) (v : Int) : L := { key := t * 100 + e, mergeable := needMerge t, writes := [(t * 100 + e, v)] }
 
+/-! ### `removeUnchanged` (log_compressor.go): after the merge, logs that `IsValuable` judges unchanged are dropped.
+`valuable` is the verdict of `IsValuable` (change_log.go) on the log's OldVal / NewVal as recorded when the log was
+made: for a SuicideLog "the account had a balance, a code hash or a COMMITTED storage root". -/
+
+structure VL where
+  log : L
+  valuable : Bool
+
+def removeUnchanged (ls : List VL) : List L := (ls.filter (·.valuable)).map (·.log)
+
 end LemoModel.MergeLogs
